@@ -764,6 +764,56 @@ def small_functions(ctx):
     ctx.compare("hashtree.py index arithmetic / HashTree construction / needed_hashes", cases, impl, model)
 
 
+def validate_cases(ctx):
+    """the download step `validateLeaf` of the model: ask needed_hashes(k) of a partially validated real tree, answer
+    with the genuine values + the genuine leaf, call set_hashes under a seeded pop order; compare the request, the
+    outcome and the list; the monitor demands acceptance (the genuine hashes it asked for)."""
+    import copy
+    from allmydata import hashtree
+    tm = terms()
+    rng = ctx.subrng("validate")
+    lines, impl, cases = [], [], []
+    for _ in range(ctx.budget(150, 2500)):
+        n = rng.choice([1, 2, 3, 4, 5, 6, 7, 8, 9, 13, 16, 17, 31, 32, 33, 64])
+        T = ["a%d" % i for i in range(n)]
+        gen = genuine_terms(T)
+        size = len(gen)
+        first = (size + 1) // 2 - 1
+        real_T = hashtree.HashTree([tm.bytes_of(t) for t in T])
+        tm.show_tree(list(real_T))
+        tree = hashtree.IncompleteHashTree(n)
+        tree.set_hashes({0: real_T[0]})
+        for k0 in rng.sample(range(size - first), rng.randrange(0, min(size - first, 6) + 1)):   # padding slots too
+            tree.set_hashes({i: real_T[i] for i in tree.needed_hashes(k0)}, leaves={k0: real_T[first + k0]})
+        k = rng.randrange(size - first + 2)               # the last two are out of range
+        prio = list(range(size))
+        rng.shuffle(prio)
+        before = tm.show_tree(list(tree))
+        case = {"validate": n, "leaf": k, "prio": prio, "tree": before}
+        try:
+            needed = tree.needed_hashes(k)
+        except IndexError:
+            needed = None
+        if needed is None or first + k >= size:
+            out = "err"
+        else:
+            order = [i for i in path_needed(first + k) if i in needed]
+            if set(order) != set(needed):
+                ctx.violation("needed_hashes asks for a node off the leaf's chain", case, "needed-hashes-off-chain")
+            t2 = copy.deepcopy(tree)
+            outcome = do_call(t2, {"prio": prio, "hashes": [(i, gen[i]) for i in order], "leaves": [(k, gen[first + k])]})
+            out = "%s %s:%s" % (fmt_assoc([(i, gen[i]) for i in order]), outcome, tm.show_tree(list(t2)))
+            if outcome != "ok":
+                ctx.violation("set_hashes rejected (%s) the genuine hashes it asked for" % do_call.last_exception, case,
+                              "genuine-rejected", {"request": order})
+            ctx.count("validate:needed=%d" % min(len(order), 4))
+        lines.append("validate %d %d %s %s %s" % (first, k, ",".join(map(str, prio)), before, ",".join(gen)))
+        impl.append(out)
+        cases.append(case)
+        ctx.case((n, before, k) if n >= 2 else None)
+    ctx.compare("validateLeaf: needed_hashes answered genuinely, then set_hashes", cases, impl, ctx.model(lines))
+
+
 # ----------------------------------------------------------------------------- entry points
 
 def untuple(case):
@@ -808,6 +858,7 @@ def run(ctx):
         ctx.sample({"case": case, "impl": out[0][:300]})
         return
     small_functions(ctx)
+    validate_cases(ctx)
     # 1. fixed corpus
     out = run_batch(ctx, "set_hashes history (corpus of known corners)", corpus())
     # 2. exhaustive small scope
